@@ -235,6 +235,18 @@ func dump(v reflect.Value, seen map[uintptr]bool, sb *strings.Builder) {
 		dump(v.Elem(), seen, sb)
 	case reflect.Struct:
 		sb.WriteString(v.Type().String() + "{")
+		// sync/atomic.Pointer[T] keeps its referent behind an unsafe.Pointer: follow it with T's type
+		// (struct { _ [0]*T; _ noCopy; v unsafe.Pointer })
+		if strings.HasPrefix(v.Type().String(), "atomic.Pointer[") && v.NumField() == 3 && v.Field(2).Kind() == reflect.UnsafePointer {
+			if up := v.Field(2).UnsafePointer(); up == nil {
+				sb.WriteString("nil}")
+			} else {
+				t := v.Type().Field(0).Type.Elem().Elem()
+				dump(reflect.NewAt(t, up).Elem(), seen, sb)
+				sb.WriteString("}")
+			}
+			return
+		}
 		for i := 0; i < v.NumField(); i++ {
 			sb.WriteString(v.Type().Field(i).Name + ":")
 			dump(v.Field(i), seen, sb)
@@ -631,4 +643,26 @@ func BytesCountModel(s, sep []byte) int {
 		}
 	}
 	return n
+}
+
+// Registry of package-level variables a replay watches (filled by a generated init function in the
+// variable's own package; see lib/runner.py).
+var watched = map[string]any{}
+
+func RegisterGlobal(name string, p any) { watched[name] = p }
+
+// DumpGlobals renders the watched package-level variables (unexported fields included).
+func DumpGlobals() string {
+	var names []string
+	for n := range watched {
+		names = append(names, n)
+	}
+	sort.Strings(names)
+	var sb strings.Builder
+	for _, n := range names {
+		sb.WriteString(n + "=")
+		dump(reflect.ValueOf(watched[n]), map[uintptr]bool{}, &sb)
+		sb.WriteString(";")
+	}
+	return sb.String()
 }
